@@ -26,6 +26,7 @@ class SqliteDLQMixin:
     """
 
     table_name: str
+    max_attempts: int
     _pending: dict[int, dict[str, Any]]
 
     def _get_connection(self) -> sqlite3.Connection:
@@ -209,8 +210,9 @@ class SqliteDLQMixin:
             f"""
             SELECT id, message_type, attempts
             FROM {self.table_name}
-            WHERE attempts >= max_attempts
+            WHERE attempts >= max_attempts OR attempts >= :queue_max_attempts
             """,
+            {"queue_max_attempts": self.max_attempts},
         )
         rows = result.fetchall()
 
